@@ -104,6 +104,7 @@ def _a_engine(chk):
     mod, cls = ri.find_def(CE, "_CenterManifoldEngine")
     seeds = [tuple(sp.Symbol(f"s{i}_{k}") for k in range(4)) for i in range(5)]
     results = {}
+    lifts_seen = []
     off_section = []
     for nw in (1, 2, 3):
         calls = {"run": 0}
@@ -137,7 +138,7 @@ def _a_engine(chk):
 
         pool = Pool()
         icls = ri.find_def(CI, "_CenterManifoldInterface")
-        iface = SymObj(ClassRef(*icls), {"lift_plane_point": lambda p, **kw: p, "to_backend_inputs": lambda pr_: SymObj(None, {"request": SymObj(ClassRef(*ri.find_def(
+        iface = SymObj(ClassRef(*icls), {"lift_plane_point": lambda p, **kw: (lifts_seen.append(kw), p)[1], "to_backend_inputs": lambda pr_: SymObj(None, {"request": SymObj(ClassRef(*ri.find_def(
             "hiten.algorithms.poincare.centermanifold.types", "CenterManifoldBackendRequest")), {"dt": 1, "jac_H": 2, "clmo_table": 3, "section_coord": "q3", "forward": 1, "max_steps": 5,
                                                                                                        "method": "fixed", "order": 4, "c_omega_heuristic": 20}, "req")}, "call"),
                                          "to_results": lambda resp, problem=None: resp}, "iface")
@@ -179,13 +180,10 @@ def _a_engine(chk):
     runf = next(f for f in bcls.body if isinstance(f, ast.FunctionDef) and f.name == "run")
     stores = [ast.unparse(n) for n in ast.walk(runf) if isinstance(n, ast.Attribute) and isinstance(n.ctx, ast.Store)]
     chk.check(not stores, "C14.a", f"{CB}::_CenterManifoldBackend.run[effects]", f"backend.run writes attributes {stores} while it is shared by all workers", sample="run() writes no attribute")
-    # seeds are lifted with the problem's energy and section (C14.e)
-    solve = next(f for f in cls.body if isinstance(f, ast.FunctionDef) and f.name == "solve")
-    lifts = [c for c in ast.walk(solve) if isinstance(c, ast.Call) and isinstance(c.func, ast.Attribute) and c.func.attr == "lift_plane_point"]
-    ok = bool(lifts) and all({k.arg: ast.unparse(k.value) for k in c.keywords}.get("h0") == "problem.energy" and
-                             {k.arg: ast.unparse(k.value) for k in c.keywords}.get("section_coord") in ("section_coord", "problem.section_coord") for c in lifts)
-    chk.check(ok, "C14.e", f"{CE}::_CenterManifoldEngine.solve[seed lift]", "seeds are not lifted with lift_plane_point on the problem's energy and section coordinate",
-              sample="lift_plane_point(p, section_coord=section_coord, h0=problem.energy, ...)")
+    # seeds are lifted with the problem's energy and section (C14.e): arguments the interpreted engine handed to the interface
+    ok = bool(lifts_seen) and all(kw.get("h0") == sp.Symbol("h0") and kw.get("section_coord") == "q3" for kw in lifts_seen)
+    chk.check(ok, "C14.e", f"{CE}::_CenterManifoldEngine.solve[seed lift]", f"seeds are not lifted with lift_plane_point on the problem's energy and section coordinate: {lifts_seen[:1]}",
+              sample="lift_plane_point(p, section_coord=problem.section_coord, h0=problem.energy, ...) for every seed")
 
 
 def _c_service_section(chk):
